@@ -49,7 +49,9 @@ impl<'a> SpannedText<'a> {
 
     /// Calculate the line and column position, in characters.
     fn linecol(&self, pos: usize) -> (usize, usize) {
-        assert!(pos < self.text.len());
+        // `SpannedText::new` guarantees `pos <= self.text.len()`; a span may
+        // start or end at the very end of the text.
+        assert!(pos <= self.text.len());
         let mut line: usize = 1;
         let mut col: usize = 1;
         for c in self.text[0..pos].chars() {
